@@ -66,6 +66,13 @@ def gen(rng, tier):
         pm["deps"].append([i, i + 1, rng.choice([0, 1, 2, 3])])
         pm["teams"][0]["targets"].append(i + 1)
         pm["teams"][0]["workers"][0]["skills"]["after"] = 1.0
+    if rng.random() < 0.15:
+        # the sub-project task works on a component of its own, in a workplace of its own that can always take it
+        pm["comps"] = list(pm.get("comps") or []) + [{"id": "csub", "size": 1.0, "children": []}]
+        pm["tasks"][i]["comp"] = len(pm["comps"]) - 1
+        pm["wps"] = list(pm.get("wps") or []) + [{"id": "psub", "cap": rng.choice([1.0, 2.0, float("inf")]), "targets": [i], "inputs": [],
+                                                   "facs": [{"id": "fsub", "skills": {"sub": 1.0}, "cost": 0.0}]}]
+        pm.pop("reg_order", None)
     preconf = rng.random() < 0.3
     pcfg = G.gen_cfg(rng, pp, max_time=None)
     pcfg["max_time"] = 2500
@@ -279,7 +286,9 @@ def run(spec):
                     res.add("start", "C20.not_ready_when_gates_open", "step %d: all gates of the sub-project task are open but it is NONE" % k, k)
         if A is None or R is None:
             break
-        can_run = (k not in absn) or flag
+        # (a task bound to a component starts where the component is placed, and components are placed by the allocation, which
+        # does not take place at absence steps: with the auto flag such a task goes on at an absence step, it does not start there)
+        can_run = (k not in absn) or (flag and (st.tasks["sub"].get("comp") is None or U["T"]["sub"][0] == WORKING))
         if k_ready is not None and fin_at is None:
             if can_run:
                 if A["T"]["sub"][0] != WORKING:
